@@ -431,7 +431,7 @@ class Engine:
             cell = Cell(BytesV(bytes(c["bytes"])), "const")
             return RefV(cell)
         if "fn" in c:
-            return FnV(strip_generics(c["fn"]), c.get("gargs", ()))
+            return FnV(self.unit_qual(fr, strip_generics(c["fn"])), c.get("gargs", ()))
         if "fbits" in c:
             return AggV("float", {0: K(int(c["fbits"])), 1: K(c["fwidth"])})
         if "zst" in c:
@@ -1127,6 +1127,44 @@ def m_res_is_err(eng, st, fr, t, name, rname, args):
     return NotImplemented
 
 
+def _split_through_ref(eng, st, fr, t, arg, kind, pred):
+    """`arg` is a reference to an Option/Result; if the pointee is unknown fork on its variant (storing the
+    refined value back) and answer pred(variant name) on each path."""
+    v = eng.resolve(st, arg)
+    if not isinstance(v, RefV):
+        return NotImplemented
+    inner = eng.resolve(st, load(Loc(v.cell, v.path)))
+    if isinstance(inner, EnumV) and inner.name is not None:
+        return K(pred(inner.name))
+    if not isinstance(inner, (SymV, TopV)):
+        return NotImplemented
+    parts = split_result(eng, st, fr, t, inner) if kind == "result" else split_option(eng, st, fr, t, inner)
+    out = []
+    for s, ev in parts:
+        f2 = s.frames[-1]
+        a2 = eng.resolve(s, eng.operand(s, f2, t["args"][0])) if s is not st else v
+        if isinstance(a2, RefV):
+            store(Loc(a2.cell, a2.path), ev)
+        out.append((s, K(pred(ev.name))))
+    return out
+
+
+def m_is_ok2(eng, st, fr, t, name, rname, args):
+    return _split_through_ref(eng, st, fr, t, args[0], "result", lambda n: n == "Ok")
+
+
+def m_is_err2(eng, st, fr, t, name, rname, args):
+    return _split_through_ref(eng, st, fr, t, args[0], "result", lambda n: n == "Err")
+
+
+def m_is_some2(eng, st, fr, t, name, rname, args):
+    return _split_through_ref(eng, st, fr, t, args[0], "option", lambda n: n == "Some")
+
+
+def m_is_none2(eng, st, fr, t, name, rname, args):
+    return _split_through_ref(eng, st, fr, t, args[0], "option", lambda n: n == "None")
+
+
 def m_map_or(eng, st, fr, t, name, rname, args):
     v = eng.resolve(st, args[0])
     if isinstance(v, EnumV) and v.name == "None":
@@ -1249,10 +1287,10 @@ DEFAULT_MODELS = {
     "core::convert::Into::into": m_into,
     "<T as core::convert::Into<U>>::into": m_into,
     "core::convert::From::from": m_into,
-    "core::option::Option::is_some": m_opt_is_some,
-    "core::option::Option::is_none": m_opt_is_none,
-    "core::result::Result::is_ok": m_res_is_ok,
-    "core::result::Result::is_err": m_res_is_err,
+    "core::option::Option::is_some": m_is_some2,
+    "core::option::Option::is_none": m_is_none2,
+    "core::result::Result::is_ok": m_is_ok2,
+    "core::result::Result::is_err": m_is_err2,
     "core::option::Option::map_or": lift(None, m_map_or, "option"),
     "core::option::Option::map": lift(None, m_opt_map, "option"),
     "core::result::Result::map": lift(None, m_res_map, "result"),
